@@ -23,7 +23,7 @@ from rawbus import Daemon, Msg, METHOD_CALL, METHOD_RETURN, ERROR, SIGNAL, F_PAT
 LAT_BOUND = 2.0          # seconds: every bystander round trip must be answered within this
 WAIT = 5.0               # seconds: how long an expected effect (EOF, bytes consumed) may take before it counts as missing
 DRIVER = "org.freedesktop.DBus"
-SAN_PAT = re.compile(r"AddressSanitizer|runtime error:|LeakSanitizer|assertion failed|Assertion|SUMMARY: |dbus-daemon.*aborting|process \d+: arguments to")
+SAN_PAT = re.compile(r"AddressSanitizer|runtime error:|LeakSanitizer|assertion failed|Assertion|SUMMARY: |dbus-daemon.*aborting|arguments to \w+\(\) were incorrect")
 
 
 def limits_xml(cfg):
@@ -45,6 +45,7 @@ class HSock:
         self.rx = bytearray()
         self.eof = False
         self.closed = False
+        self.mute = False        # a client that never reads: only hang-up is looked at
 
     def outq(self):
         return struct.unpack("i", fcntl.ioctl(self.s.fileno(), termios.TIOCOUTQ, b"\0\0\0\0"))[0]
@@ -66,6 +67,13 @@ class HSock:
 
     def poll(self):
         if self.closed or self.eof:
+            return
+        if self.mute:
+            p = select.poll()
+            p.register(self.s, select.POLLRDHUP | select.POLLHUP | select.POLLERR)
+            for _, ev in p.poll(0):
+                if ev & (select.POLLRDHUP | select.POLLHUP | select.POLLERR):
+                    self.eof = True
             return
         while True:
             try:
@@ -213,9 +221,12 @@ class Bus:
 
     def sync(self):
         """returns (monitor messages, bystander messages, latency, ok)"""
-        lat, ok, serial = self.barrier()
-        mon, ok2 = self.monitor_until(serial)
-        self.O.barrier(WAIT)
+        try:
+            lat, ok, serial = self.barrier()
+            mon, ok2 = self.monitor_until(serial)
+            self.O.barrier(WAIT)
+        except (BrokenPipeError, ConnectionResetError, OSError):
+            return [], [], WAIT, False
         by = []
         for c in (self.W1, self.W2, self.O):
             by += c.inbox
@@ -229,6 +240,45 @@ class Bus:
         rc, err = self.d.stop()
         bad = [l for l in err.split("\n") if SAN_PAT.search(l)]
         return alive, rc, bad, err
+
+
+def blast(bus, h, payload, seconds):
+    """hostile socket h writes `payload` over and over, as fast as the bus takes it, never reading; meanwhile the
+    well-behaved pair keeps making round trips.  Returns (bytes sent, worst latency, all round trips correct, n round trips)"""
+    import threading
+    stop = threading.Event()
+    sent = [0]
+
+    def pump():
+        view = memoryview(payload)
+        off = 0
+        while not stop.is_set() and not h.eof:
+            try:
+                n = h.s.send(view[off:])
+                sent[0] += n
+                off = (off + n) % len(payload)
+            except (BlockingIOError, InterruptedError):
+                select.select([], [h.s], [], 0.01)
+            except (BrokenPipeError, ConnectionResetError, OSError):
+                h.eof = True
+    th = threading.Thread(target=pump, daemon=True)
+    th.start()
+    worst, ok_all, n = 0.0, True, 0
+    t_end = time.time() + seconds
+    while time.time() < t_end:
+        try:
+            lat, ok, _ = bus.barrier()
+            lat2, ok2 = bus.p2p()
+        except (BrokenPipeError, ConnectionResetError, OSError):
+            lat, ok, lat2, ok2 = WAIT, False, WAIT, False
+        worst = max(worst, lat, lat2)
+        ok_all = ok_all and ok and ok2
+        n += 2
+        if not ok_all:
+            break
+    stop.set()
+    th.join(2.0)
+    return sent[0], worst, ok_all, n
 
 
 def parse_groups(line):
@@ -247,7 +297,7 @@ def parse_groups(line):
     return groups
 
 
-def run_script(bus, script, groups, canaries):
+def run_script(bus, script, groups, canaries, blast_spec=None, noread=()):
     """script: list of ("C", c) / ("W", c, bytes) / ("X", c) / ("S", ms); groups: parse_groups(model line);
     canaries: list of byte strings planted in messages.  Returns dict(problems=[(kind, text)], observed=[...], stats)"""
     socks, names, gone_expected = {}, {}, set()
@@ -305,11 +355,12 @@ def run_script(bus, script, groups, canaries):
                     gone_expected.add(c)
                     stats["gone"] += 1
         # ---- wait for the expected effects
+        deadline = time.time() + WAIT
         for c in sorted(gone_expected):
             h = socks.get(c)
             if h is not None and not h.closed and not h.eof:
-                if not h.wait_eof():
-                    problem("violation" if kind != "S" else "mismatch",
+                if not h.wait_eof(max(0.02, deadline - time.time())):
+                    problem("violation" if kind != "S" else "late",
                             "%s: the model disconnects connection %d here (invalid stream / handshake failure / policy / expiry) but its socket saw no EOF within %.0f s" % (where, c, WAIT))
         for c in sorted(reads - gone_expected):
             h = socks.get(c)
@@ -378,8 +429,32 @@ def run_script(bus, script, groups, canaries):
                 problem("mismatch", "%s: handshake bytes written to connection %d differ: model %r, daemon %r" % (where, c, want[-80:], got[:len(want) + 20][-100:]))
             if h.eof and c not in gone_expected:
                 problem("mismatch", "%s: the daemon closed connection %d, the model keeps it" % (where, c))
+            if c in noread and want and len(got) >= len(want):
+                h.mute = True        # handshake done: from now on this client reads nothing
         if any(k == "violation" for k, _ in problems):
             break
+    # ---- concurrent flood: not compared with the model, only service level and survival are observed
+    if blast_spec and not problems:
+        h = socks.get(blast_spec["conn"])
+        if h is not None and not h.closed and not h.eof:
+            nbytes, worst, ok, n = blast(bus, h, bytes.fromhex(blast_spec["payload"]), blast_spec["seconds"])
+            stats["blast_bytes"] = nbytes
+            stats["blast_roundtrips"] = n
+            stats["lat_max"] = max(stats["lat_max"], worst)
+            stats["blast_lat_max"] = worst
+            if not ok:
+                problem("violation", "during a flood of %d bytes from connection %d a bystander round trip failed or timed out (worst %.3f s)" % (nbytes, blast_spec["conn"], worst))
+            elif worst > LAT_BOUND:
+                problem("violation", "during a flood of %d bytes from connection %d the worst bystander round trip took %.3f s (bound %.1f s)" % (nbytes, blast_spec["conn"], worst, LAT_BOUND))
+            h.close()
+            # the monitor has a lot to read now; let it catch up without a deadline on the marker
+            t_end = time.time() + 60
+            while time.time() < t_end:
+                mon, by, lat, ok = bus.sync()
+                if ok:
+                    break
+            if not ok:
+                problem("violation", "after the flood the bus (or its monitor) did not come back within 60 s")
     # ---- end of script: peer-to-peer service check, then leave a clean bus
     if not problems:
         lat, ok = bus.p2p()
